@@ -828,6 +828,71 @@ func rulePercentageDecor(w *World, r *Report, pfx string) {
 		}
 	}
 	r.Check(ok, rule, "percentage decorator", w.pos(root.Pos()), "Percentage(Total, Current, 100)", "the percentage decorator does not compute Percentage(Total, Current, 100)")
+	// the formatter prints the percentage it is given, unscaled, followed by the percent sign
+	for _, fn := range w.ModFns {
+		if fn.Pkg != w.Decor || fn.Name() != "Format" || fn.Signature.Recv() == nil || fn.Parent() != nil {
+			continue
+		}
+		if b, isB := fn.Signature.Recv().Type().Underlying().(*types.Basic); !isB || b.Info()&types.IsFloat == 0 {
+			continue // the percentage type is the float-based formatter
+		}
+		recv := ssa.Value(fn.Params[0])
+		bad := ""
+		n := 0
+		for _, g := range sortedFns(w.unit(fn)) {
+			for _, b := range g.Blocks {
+				for _, in := range b.Instrs {
+					c, isC := in.(*ssa.Call)
+					if !isC || c.Call.StaticCallee() == nil || c.Call.StaticCallee().String() != "strconv.AppendFloat" {
+						continue
+					}
+					n++
+					v := c.Call.Args[1]
+					for i := 0; i < 6; i++ {
+						v = stripConv(w.origin(v))
+						if par, isP := v.(*ssa.Parameter); isP && par.Parent() != fn {
+							// a helper's parameter: the single caller's argument
+							h := par.Parent()
+							sites := w.callers[h]
+							if len(sites) == 1 {
+								for k, q := range h.Params {
+									if q == par && k < len(sites[0].Common().Args) {
+										v = sites[0].Common().Args[k]
+									}
+								}
+								continue
+							}
+						}
+						break
+					}
+					if v != recv {
+						bad = "the number printed is not the percentage the formatter was given (scaled or replaced)"
+					}
+				}
+			}
+		}
+		hasSign := false
+		for _, b := range fn.Blocks {
+			for _, in := range b.Instrs {
+				for _, op := range in.Operands(nil) {
+					if k, isK := (*op).(*ssa.Const); isK && k.Value != nil {
+						if k.Value.Kind() == constant.Int {
+							if iv, exact := constant.Int64Val(k.Value); exact && iv == '%' {
+								hasSign = true
+							}
+						}
+						if k.Value.Kind() == constant.String && strings.Contains(constant.StringVal(k.Value), "%") {
+							hasSign = true
+						}
+					}
+				}
+			}
+		}
+		if !hasSign {
+			bad = orStr(bad, "no percent sign is appended")
+		}
+		r.Check(bad == "" && n > 0, rule, "percentage formatter", w.pos(fn.Pos()), "prints the given percentage followed by %", orStr(bad, "no AppendFloat call found"))
+	}
 }
 
 // C20 — decorators print the true value.
